@@ -141,7 +141,8 @@ namespace GeographicLib {
         return d1(p.x - q.x, p.y - q.y) <= _delta;
       }
       bool operator()(const XPoint& p, const XPoint& q) const {
-        return !eq(p, q) && ( p.x != q.x ? p.x < q.x : p.y < q.y );
+        using std::fabs;
+        return !eq(p, q) && ( fabs(p.x - q.x) > _delta ? p.x < q.x : p.y < q.y );
       }
     };
     SetComp _comp;
